@@ -371,7 +371,10 @@ class Unit:
                         if stripped.endswith('Ok(())'):
                             at = len(stripped) - len('Ok(())')
                         elif not (stripped.endswith(';') or stripped.endswith('}')):
-                            raise WeaveError('%s: proof end: body ends in a tail expression' % label)
+                            # tail expression: insert between the last statement and the tail
+                            at = max(stripped.rfind(';'), stripped.rfind('}')) + 1
+                            if at <= 0:
+                                raise WeaveError('%s: proof end: body is a single tail expression' % label)
                         else:
                             at = len(stripped)
                     else:
